@@ -1,5 +1,107 @@
 /-
-C12 — property theorems (stub: no theorem stated yet, so no obligation is counted).
+C12 — the BGZF writer emits whole blocks in write order; Flush+Wait (and Close) make written data durable.
+PROPERTY THEOREMS ONLY.
+
+Every statement is about the labelled transition system `Hts.Model.WriterLTS` of the (repaired, fixes/C09-1)
+writer protocol and holds for EVERY writer concurrency `cfg.wc` (the code's `wc++; if wc < 2 { wc = 2 }`
+normalisation included, so wc = 0 and wc = 1 give the same two compressors), EVERY script of API calls, EVERY
+interleaving of the API goroutine, the emitter and the compressor goroutines (= every completion order) and
+EVERY fault oracle of the underlying writer.  `out` is the list of blocks whose underlying `Write` returned
+success; a block is its submission number.  Traces are newest-event-first.
 -/
+import Hts.Lemmas.WriterLTSAcc
+import Hts.Lemmas.WriterLTSWitness
+import Hts.Lemmas.WriterLTSOwn
 namespace Hts.Props.C12
+open Hts.Model.WriterLTS
+
+variable {cfg : Cfg} {s : State}
+
+/-- Whenever the underlying writer has returned from a write (indeed in every reachable state), the blocks
+    delivered so far are complete blocks forming a prefix, in submission order, of the blocks submitted so far. -/
+theorem out_is_prefix (hr : cfg.repaired = true) (h : Reachable cfg s) :
+    s.out = (List.range s.submitted).take s.out.length := by
+  have hi := reachable_inv hr h
+  have := List.take_range (i := s.out.length) (n := s.submitted)
+  rw [this, Nat.min_eq_left hi.le]
+  exact hi.pref
+
+/-- Once `Flush` and then `Wait` have returned nil, every block submitted before the `Flush` returned
+    (`m` of them — the `Flush` has submitted the partial block) has been delivered, in order. -/
+theorem flush_wait_durable (hr : cfg.repaired = true) {tr post pre : List Ev} {b : Bool} {m m' : Nat}
+    (h : Run cfg tr s)
+    (htr : tr.filter isApiEv = post ++ .ret .wait .ok m' :: .call .wait :: .ret (.flush b) .ok m :: pre) :
+    s.out.take m = List.range m := by
+  have := wait_durable hr h (post := post) (mid := [.call .wait]) (pre := pre) (op := .flush b) (r := .ok)
+    (m := m) (m' := m') (by simpa using htr)
+  exact take_of_prefix (run_inv hr h).1.pref (by omega)
+
+/-- `Wait` returning nil makes everything submitted before it durable, whatever call preceded it. -/
+theorem wait_durable_all (hr : cfg.repaired = true) {tr : List Ev} {m : Nat} (h : Run cfg tr s)
+    (hmem : .ret .wait .ok m ∈ tr) : s.out.take m = List.range m :=
+  take_of_prefix (run_inv hr h).1.pref ((run_inv hr h).2.waitOK m hmem)
+
+/-- Once `Close` has returned nil, everything ever submitted has been delivered, followed by the EOF marker,
+    and nothing is submitted afterwards. -/
+theorem close_durable (hr : cfg.repaired = true) {tr : List Ev} {m : Nat} (h : Run cfg tr s)
+    (hmem : .ret .close .ok m ∈ tr) :
+    s.out = List.range m ∧ s.eof = true ∧ s.submitted = m := by
+  obtain ⟨hi, hR⟩ := run_inv hr h
+  obtain ⟨h1, h2⟩ := hR.closeOK m hmem
+  obtain ⟨-, -, h3⟩ := hR.closeRet .ok m hmem
+  have hle := hi.le
+  have : s.out.length = m := by omega
+  exact ⟨this ▸ hi.pref, h2, h3.symm⟩
+
+/-- Without faults, when everything has come to rest the delivered output is the sequential writer's:
+    independent of the schedule, of the completion order of the compressors and of `wc`. -/
+theorem lts_output_deterministic (hr : cfg.repaired = true) (hnf : ∀ i, cfg.fault i = false)
+    (h : Reachable cfg s) (hidle : AllIdle s) :
+    (s.out, s.eof) = sequentialWriter cfg.script := by
+  obtain ⟨h1, h2⟩ := output_of_idle hr hnf h hidle
+  simp [sequentialWriter, h1, h2]
+
+/-- `bam.NewWriter` = `Write(header)` (completing `k` blocks), `Flush`, `Wait`: if that `Wait` — the third call to
+    return — returns nil, the header's `k+1` blocks are exactly what has been submitted and all of them have been
+    delivered to the underlying writer, in order, whatever follows. -/
+theorem bam_header_durable (hr : cfg.repaired = true) {k : Nat} {rest : List Op}
+    (hs : cfg.script = .write k :: .flush true :: .wait :: rest) {tr post mid : List Ev} {m : Nat}
+    (h : Run cfg tr s) (htr : tr = post ++ .ret .wait .ok m :: mid) (hmid : nrets mid = 2) :
+    m = k + 1 ∧ s.out.take (k + 1) = List.range (k + 1) := by
+  have hm := third_ret_count hr hs h htr hmid
+  refine ⟨hm, ?_⟩
+  rw [← hm]
+  exact wait_durable_all hr h (by rw [htr]; simp)
+
+/-- Every compressor — its 64 KiB block buffer and its gzip output buffer — has at most one holder among the API
+    goroutine (active compressor), the `waiting` channel, the `queue` channel (whose `writeBlock` goroutine fills
+    it) and the emitter, in every reachable state of either protocol variant: a block being compressed or written
+    is never overwritten by a later `Write`. -/
+theorem compressor_exclusive (h : Reachable cfg s) (c : Nat) : holders c s ≤ 1 :=
+  reachable_holders h c
+
+/-! ### non-vacuity: the hypotheses are satisfiable and the conclusions are not trivial -/
+
+/-- a concrete run with four compressors in which two blocks are in flight at once -/
+def exCfg : Cfg := { wc := 3, script := [.write 2, .flush true, .wait, .close], fault := fun _ => false, repaired := true }
+
+def exSchedule : List Label :=
+  [.api, .api, .api, .api, .api, .api, .api, .api,        -- Write: blocks 0 and 1 queued, returns
+   .finQ 1,                                               -- block 1 finishes compressing FIRST
+   .api, .api, .api, .api,                                -- Flush: block 2 queued, returns
+   .api, .api,                                            -- Wait: called, blocks
+   .em, .finE, .em, .em, .em,                             -- emitter: block 0
+   .em, .em, .em, .em,                                    -- emitter: block 1
+   .em, .finE, .em, .em, .em,                             -- emitter: block 2
+   .api]                                                  -- Wait returns nil
+
+example : ∃ tr s, runTrace exCfg [] (init exCfg) exSchedule = some (tr, s) ∧
+    tr.filter isApiEv = [.ret .wait .ok 3, .call .wait, .ret (.flush true) .ok 3, .call (.flush true),
+      .ret (.write 2) .ok 2, .call (.write 2)] ∧ s.out = [0, 1, 2] := by
+  refine ⟨_, _, rfl, ?_, ?_⟩ <;> decide
+
+example : (∀ i, exCfg.fault i = false) ∧ exCfg.repaired = true := ⟨fun _ => rfl, rfl⟩
+
+example : sequentialWriter exCfg.script = ([0, 1, 2, 3], true) := by decide
+
 end Hts.Props.C12
